@@ -31,6 +31,25 @@ def correspond(opname, n, seed, corpus=None, jobs=None):
             "disagreements": dis, "coq_s": round(time.time() - t0, 2), "sample": inputs[len(inputs) // 2] if inputs else None}
 
 
+def exhaustive_inputs(opname):
+    """small-scope complete enumerations used by the thorough tier (they validate the tie; they are not the proof)"""
+    import itertools
+    from canon import ON, OFF, WT, TS, KS
+    if opname == "normalise":
+        alpha = [ON(c, p, 100) for c in (0, 1) for p in (60, 61)] + [OFF(c, p) for c in (0, 1) for p in (60, 61)] + \
+                [WT(0, 5), WT(1, 0), TS(0, 3, 4), TS(0, 4, 4), KS(0, "G")]
+        return [list(t) for k in range(0, 5) for t in itertools.product(alpha, repeat=k)]
+    if opname == "split":
+        alpha = [ON(0, 60, 100), OFF(0, 60), ON(1, 60, 90), OFF(1, 60), WT(0, 6), WT(0, 7), KS(0, "G")]
+        ls = [list(t) for k in range(0, 5) for t in itertools.product(alpha, repeat=k)]
+        return [(l, caps) for l in ls for caps in ([6], [6, 6], [7, 6])]
+    if opname == "pad":
+        alpha = [ON(0, 60, 100), OFF(0, 60), WT(0, 6), WT(1, 0), KS(0, "G")]
+        ls = [list(t) for k in range(0, 5) for t in itertools.product(alpha, repeat=k)]
+        return [(l, p) for l in ls for p in (0, 6, 7, 12, 13)]
+    return []
+
+
 if __name__ == "__main__":
     names = sys.argv[1].split(",")
     n = int(sys.argv[2]) if len(sys.argv) > 2 else 200
